@@ -657,6 +657,84 @@ def mutate(text, rng):
     return "".join(s)
 
 
+# ---- texts for (X): one named spelling / probe per text, placed in a few contexts, so that a disagreement has a stable name
+CONTEXTS = [("top", "%s"), ("list", "(a %s b)"), ("vector", "#(1 %s)"), ("quoted", "'%s"), ("dotted-tail", "(a . %s)")]
+
+
+def spellings(rng):
+    """valid R7RS spellings: (feature, text)"""
+    n = rng.randrange(2, 900)
+    f = rng.choice(("5", "25", "125", "75"))
+    w2, w3, w4 = chr(rng.randrange(0xa1, 0x7ff)), chr(rng.randrange(0x3041, 0x3090)), chr(rng.randrange(0x10000, 0x10ffff))
+    return [
+        ("float-leading-dot", ".%s" % f), ("float-neg-leading-dot", "-.%s" % f), ("float-trailing-dot", "%d." % n),
+        ("float-upper-E", "%d.5E3" % n), ("float-plus-exponent", "%de+2" % n), ("float-exponent-no-dot", "%de-2" % n),
+        ("float-leading-dot-exponent", ".%se2" % f), ("int-plus-sign", "+%d" % n), ("int-leading-zeros", "00%d" % n),
+        ("ratio-unreduced", "%d/%d" % (2 * n, 4)), ("ratio-plus-sign", "+%d/7" % n), ("bool-long-true", "#true"),
+        ("bool-long-false", "#false"), ("bool-upper", "#T"), ("char-hex", "#\\x%x" % rng.randrange(33, 0x2000)),
+        ("char-hex-upper-x", "#\\X41"), ("char-name", "#\\" + rng.choice(sorted(RD.NAMED))), ("char-name-upper", "#\\SPACE"),
+        ("char-raw-ascii", "#\\" + chr(rng.randrange(33, 127))), ("char-raw-w2", "#\\" + w2), ("char-raw-w3", "#\\" + w3),
+        ("char-raw-w4", "#\\" + w4), ("char-paren", "#\\("), ("char-semicolon", "#\\;"), ("char-space-raw", "#\\ "),
+        ("string-hex-escape", "\"a\\x%x;b\"" % rng.randrange(1, 0x3000)), ("string-mnemonic-escapes", "\"\\a\\b\\t\\n\\r\\\\\\\"\""),
+        ("string-bar-escape", "\"a\\|b\""), ("string-line-continuation", "\"ab\\   \n   cd\""), ("string-raw-newline", "\"a\nb\""),
+        ("string-raw-w2", "\"a%sb\"" % w2), ("string-raw-w3", "\"a%sb\"" % w3), ("string-raw-w4", "\"a%sb\"" % w4),
+        ("string-empty", "\"\""), ("symbol-bars-plain", "|hello world|"), ("symbol-bars-hex", "|a\\x41;b|"),
+        ("symbol-bars-empty", "||"), ("symbol-bars-mnemonic", "|a\\tb|"), ("symbol-upper", "Hello"), ("symbol-raw-w3", "sym" + w3),
+        ("symbol-peculiar-plus", "+"), ("symbol-peculiar-dots", "..."), ("symbol-peculiar-arrow", "->x"), ("symbol-plus-dot", "+.x"),
+        ("symbol-dot-dot", ".."), ("symbol-at", "+@"), ("bytevector-decimal", "#u8(0 %d 255)" % rng.randrange(256)),
+        ("bytevector-hex", "#u8(#x0F #xff)"), ("bytevector-empty", "#u8()"), ("bytevector-upper", "#U8(1 2)"),
+        ("radix-x", "#x%X" % n), ("radix-x-lower", "#x%x" % (n * 1000 + 0xabc)), ("radix-b", "#b%s" % bin(n)[2:]), ("radix-o", "#o%o" % n),
+        ("radix-d", "#d%d" % n), ("radix-x-negative", "#x-%x" % n), ("radix-x-ratio", "#x%x/1f" % n), ("exact-prefix-decimal", "#e%d.%s" % (n, f)),
+        ("inexact-prefix-ratio", "#i%d/4" % n), ("exact-radix", "#e#x%x" % n), ("radix-exact", "#x#e%x" % n), ("inexact-radix", "#i#x%x" % n),
+        ("complex-rect", "%d+%di" % (n, n + 1)), ("complex-plus-i", "%d+i" % n), ("complex-minus-i", "-i"), ("complex-float", "1.5-2.5i"),
+        ("complex-polar", "1@0"), ("inf", "+inf.0"), ("neg-inf", "-inf.0"), ("nan", "+nan.0"), ("neg-zero", "-0.0"),
+        ("empty-list", "()"), ("empty-vector", "#()"), ("dotted-pair", "(%d . %d)" % (n, n + 1)), ("dotted-list", "(1 2 . 3)"),
+        ("nested", "((1) #(2 (3)) \"s\")"), ("quote-abbrev", "'x"), ("quasiquote-abbrev", "`x"), ("unquote-abbrev", ",x"),
+        ("unquote-splicing-abbrev", ",@x"), ("quote-of-list", "'(1 2)"), ("sep-newline", "(1\n2)"), ("sep-tab", "(1\t2)"),
+        ("sep-return", "(1\r\n2)"), ("no-space-before-paren", "(1(2)3)"), ("no-space-string", "(1\"a\"2)"),
+        ("line-comment", "(1 ; c )\n 2)"), ("datum-comment", "(1 #;(skip me) 2)"), ("datum-comment-atom", "(1 #;x 2)"),
+        ("datum-comment-first", "#;x %d" % n), ("block-comment", "(1 #| c |# 2)"), ("block-comment-nested", "(1 #| a #| b |# c |# 2)"),
+        ("block-comment-first", "#| c |# %d" % n), ("label-unused", "#0=(a b)"), ("label-shared", "(#0=(a) #0#)"),
+        ("label-cycle-cdr", "#0=(a . #0#)"), ("label-cycle-car", "#0=(#0# b)"), ("label-cycle-vector", "#0=#(1 #0#)"),
+        ("label-two", "(#0=(a) #1=(b) #0# #1#)"), ("label-multi-digit", "(#10=(a) #10#)"), ("label-atom", "(#0=foo #0#)"),
+        ("label-string", "(#0=\"s\" #0#)"), ("fold-case-directive", "#!fold-case ABC"), ("no-fold-case-directive", "#!no-fold-case ABC"),
+        ("brackets", "[1 2]"), ("braces-symbol", "{"), ("vector-in-list", "(#(1) #(2))"),
+    ]
+
+
+def probes(rng):
+    """texts that are not valid data, or whose meaning is implementation specific: the two readers must still agree"""
+    n = rng.randrange(2, 900)
+    return [
+        ("unterminated-list", "(1 2"), ("unterminated-vector", "#(1 2"), ("unterminated-string", "\"abc"), ("unterminated-bar", "|abc"),
+        ("unterminated-block-comment", "#| abc"), ("extra-close", ")"), ("close-after-datum", "%d)" % n), ("empty-input", ""),
+        ("only-whitespace", "  \n "), ("only-comment", "; c"), ("only-datum-comment", "#;x"), ("datum-comment-eof", "#;"),
+        ("dot-alone", "."), ("dot-first", "( . 1)"), ("dot-last", "(1 . )"), ("dot-two-tails", "(1 . 2 3)"), ("dot-twice", "(1 . . 2)"),
+        ("dot-in-vector", "#(1 . 2)"), ("hash-alone", "#"), ("hash-unknown", "#q"), ("hash-backslash-eof", "#\\"),
+        ("char-unknown-name", "#\\spac"), ("char-hex-too-big", "#\\x110000"), ("char-hex-surrogate", "#\\xD800"), ("char-x-alone", "#\\x"),
+        ("string-unknown-escape", "\"a\\qb\""), ("string-hex-no-semicolon", "\"a\\x41 b\""), ("string-hex-empty", "\"a\\x;b\""),
+        ("string-hex-too-big", "\"\\x110000;\""), ("symbol-bar-inside", "a|b c|d"), ("symbol-hash-inside", "a#b"), ("symbol-trailing-dot", "ab."),
+        ("number-two-dots", "1.2.3"), ("number-two-signs", "+-1"), ("number-double-minus", "--1"), ("number-exponent-alone", "1e"),
+        ("number-exponent-sign-alone", "1e+"), ("number-ratio-zero-den", "1/0"), ("number-ratio-two-slashes", "1/2/3"),
+        ("number-ratio-float-den", "1/2.5"), ("number-ratio-trailing-dot", "%d/3." % n), ("number-ratio-exponent", "1/2e3"),
+        ("number-ratio-neg-den", "1/-2"), ("number-trailing-letters", "%dabc" % n), ("number-underscore", "1_000"),
+        ("number-hex-without-prefix", "ff"), ("number-radix-bad-digit", "#b102"), ("number-radix-alone", "#x"),
+        ("number-exact-inf", "#e+inf.0"), ("number-exact-nan", "#e+nan.0"), ("number-inf-no-sign", "inf.0"), ("number-inf-short", "+inf"),
+        ("number-nan-upper", "+NaN.0"), ("number-i-alone", "i"), ("number-complex-two-i", "1+2ii"), ("number-complex-no-real-sign", "1+2"),
+        ("number-polar-missing", "1@"), ("number-decimal-exactness-marks", "1#.#"), ("number-long-exponent", "1e400"),
+        ("number-neg-long-exponent", "1e-400"), ("number-precision-marker", "1.5f0"), ("number-precision-marker-d", "1d3"),
+        ("bool-trailing", "#t123"), ("bool-truex", "#truex"), ("bool-f-long-bad", "#fals"), ("bytevector-256", "#u8(256)"),
+        ("bytevector-negative", "#u8(-1)"), ("bytevector-float", "#u8(1.5)"), ("bytevector-symbol", "#u8(a)"), ("bytevector-nested", "#u8((1))"),
+        ("bytevector-dotted", "#u8(1 . 2)"), ("uvector-s8", "#s8(1 -2)"), ("uvector-f32", "#f32(1.5 2.5)"), ("uvector-u16", "#u16(1 2)"),
+        ("uvector-bad", "#u7(1)"), ("label-undefined", "#0#"), ("label-self", "#0=#0#"), ("label-duplicate", "(#0=a #0=b)"),
+        ("label-forward", "(#0# #0=a)"), ("label-no-datum", "(#0=)"), ("label-eof", "#0="), ("label-huge", "#99999999999999999999=a"),
+        ("directive-unknown", "#!foo 1"), ("directive-eof", "#!eof 1"), ("shebang", "#! /bin/sh\n1"), ("quote-eof", "'"), ("quote-close", "(')"),
+        ("unquote-splicing-eof", ",@"), ("brace-open", "{a}"), ("brace-record", "{a 1 2}"), ("bracket-mismatch", "(1 2]"), ("nul-char", "a\x00b"),
+        ("formfeed-separator", "(1\x0c2)"), ("nbsp-separator", "(1\xa02)"), ("bom-first", "\ufeff1"), ("vertical-tab", "(1\x0b2)"),
+        ("syntax-quote", "#'x"), ("syntax-quasi", "#`x"), ("syntax-unquote", "#,x"), ("syntax-unquote-splicing", "#,@x"),
+    ]
+
+
 FEATURES = [("datum-comment", r"#;"), ("block-comment", r"#\||\|#"), ("directive", r"#!"), ("brace", r"[{}]"),
             ("bracket", r"[\[\]]"), ("label", r"#\d+[=#]"), ("uvector", r"#[a-zA-Z]+\d+\("), ("bytevector-ish", r"#u|#v"),
             ("char", r"#\\"), ("hex-escape", r"\\x"), ("escape", r"\\"), ("bar", r"\|"), ("radix-prefix", r"#[eEiIxXoObBdD]"),
@@ -976,88 +1054,81 @@ def first_difference_graph(a, b):
 
 def judge_x2(rep, case, res, counters):
     wit = {"text": case["text"][:600], "form": case["form"][:1500], "origin": case["origin"]}
+    sig0 = {"check": "X", "kind": "text", "origin": case["origin"], "name": case["name"], "context": case["context"]}
     if res is None or res.status == "missing":
         rep.inconc("no-output", case["id"])
         return
-    feat = feature_of(case["text"])
     if res.status == "timeout":
-        rep.violation({"check": "X", "kind": "text", "mode": "timeout", "feature": feat}, wit)
+        rep.violation(dict(sig0, what="timeout"), wit)
         return
     if res.status == "crash":
         wit["detail"] = res.detail
-        rep.violation({"check": "X", "kind": "text", "mode": "crash", "feature": feat}, wit)
+        rep.violation(dict(sig0, what="crash", how=(res.detail or {}).get("how")), wit)
         return
     try:
         o = parse_all(res.text)[0]
         on, ol = outcome(o[0]), outcome(o[1])
     except Exception:
         wit["observed"] = res.text[:600]
-        rep.violation({"check": "X", "kind": "text", "mode": "unparsable", "feature": feat}, wit)
+        rep.violation(dict(sig0, what="unparsable"), wit)
         return
     counters["X"] += 1
-    rep.case(("text", case["origin"], feat, otag(on)))
+    rep.case(("text", case["origin"], case["name"], case["context"], on[0]))
     if not agree(on, ol):
         wit["native_read"] = otag(on) + " " + (RD.show(on[1])[:300] if on[0] == "ok" else "")
         wit["lib_read"] = otag(ol) + " " + (RD.show(ol[1])[:300] if ol[0] == "ok" else "")
-        sig = {"check": "X", "what": "readers-differ", "feature": feat,
-               "native": otag(on) if on[0] == "ok" else on[0], "lib": otag(ol) if ol[0] == "ok" else ol[0]}
-        if on[0] == ol[0] == "ok":
-            sig["at"] = "/".join(str(v) for v in first_difference_graph(on[1], ol[1]).values())
-        rep.violation(sig, wit)
-    if case["origin"] == "python-writer" and agree(on, ol) and on[0] == "ok":
-        # not a claim of the property (it speaks of write-then-read): coverage only
-        counters["foreign_text_ok" if RD.bisimilar(on[1], case["model"]) else "foreign_text_other"] += 1
+        rep.violation(dict(sig0, what="readers-differ", native=otag(on) if on[0] == "ok" else on[0],
+                           lib=otag(ol) if ol[0] == "ok" else ol[0]), wit)
 
 
 # ------------------------------------------------------------------------------------------------ char sweep (inside chibi)
 def char_sweep_form(cid, lo, hi):
     return r"""(%%case* %s (flush-output-port)
- (let lp ((cp %d) (n 0) (bad 0))
+ (let lp ((cp %d) (n 0) (bad 0) (shown '()))
    (cond
     ((>= cp %d) (%%obs (list 'swept n 'bad bad)))
-    ((and (>= cp #xD800) (<= cp #xDFFF)) (lp #xE000 n bad))
+    ((and (>= cp #xD800) (<= cp #xDFFF)) (lp #xE000 n bad shown))
     (else
      (let* ((c (integer->char cp))
-            (t (w->s native-write c))
-            (len (string-length t))
-            ;; (W) decided on the text itself: #\ followed by the character, a name, or xHEX
-            (w-ok (and (>= len 3) (char=? (string-ref t 0) #\#) (char=? (string-ref t 1) #\\)
-                       (or (and (= len 3) (= (char->integer (string-ref t 2)) cp))
-                           (let ((name (substring t 2 len)))
-                             (cond ((assoc name '(("alarm" . 7) ("backspace" . 8) ("delete" . 127) ("escape" . 27) ("newline" . 10)
-                                                  ("null" . 0) ("return" . 13) ("space" . 32) ("tab" . 9)))
-                                    => (lambda (p) (= (cdr p) cp)))
-                                   ((and (char=? (string-ref name 0) #\x) (> (string-length name) 1))
-                                    (let hx ((i 1) (v 0))
-                                      (if (= i (string-length name)) (= v cp)
-                                          (let ((d (digit-value* (string-ref name i))))
-                                            (and d (hx (+ i 1) (+ (* v 16) d)))))))
-                                   (else #f))))))
-            (y (%%try (lambda () (native-read (open-input-string t)))))
-            (y2 (%%try (lambda () (read (open-input-string t)))))
             (s (string #\a c #\b))
-            (ts (w->s native-write s))
-            (ys (%%try (lambda () (native-read (open-input-string ts)))))
-            (ys2 (%%try (lambda () (read (open-input-string ts)))))
-            (sy (string->symbol s))
-            (tsy (w->s native-write sy))
-            (ysy (%%try (lambda () (native-read (open-input-string tsy)))))
-            (ysy2 (%%try (lambda () (read (open-input-string tsy)))))
-            (ok (and w-ok (eqv? y c) (eqv? y2 c) (string=? t (w->s write c))
-                     (string? ys) (string=? ys s) (string? ys2) (string=? ys2 s)
-                     (eq? ysy sy) (eq? ysy2 sy))))
-       (if (and (not ok) (< bad 8))
-           (%%obs (list 'fail cp (cps t) w-ok (and (char? y) (char->integer y)) (and (char? y2) (char->integer y2))
-                       (cps ts) (if (string? ys) (cps ys) ys) (if (string? ys2) (cps ys2) ys2)
-                       (cps tsy) (if (symbol? ysy) (cps (symbol->string ysy)) ysy)
-                       (if (symbol? ysy2) (cps (symbol->string ysy2)) ysy2))))
-       (lp (+ cp 1) (+ n 1) (if ok bad (+ bad 1))))))))""" % (cid, lo, hi)
+            (y (string->symbol s))
+            (t1 (w->s native-write c)) (t2 (w->s write c))
+            (ts1 (w->s native-write s)) (ts2 (w->s write s))
+            (ty1 (w->s native-write y)) (ty2 (w->s write y))
+            (flags (list (char-text-ok? t1 cp) (eqv? (rd1 native-read t1) c) (eqv? (rd1 read t1) c)
+                         (char-text-ok? t2 cp) (eqv? (rd1 read t2) c) (eqv? (rd1 native-read t2) c)
+                         (equal? (rd1 native-read ts1) s) (equal? (rd1 read ts1) s)
+                         (equal? (rd1 read ts2) s) (equal? (rd1 native-read ts2) s)
+                         (eq? (rd1 native-read ty1) y) (eq? (rd1 read ty1) y)
+                         (eq? (rd1 read ty2) y) (eq? (rd1 native-read ty2) y)))
+            (ok (not (memq #f flags))))
+       ;; print the first failure of every distinct flag pattern (at most 6 patterns per range)
+       (if (and (not ok) (not (member flags shown)) (< (length shown) 6))
+           (%%obs (list 'fail cp flags (cps t1) (cps t2) (cps ts1) (cps ts2) (cps ty1) (cps ty2))))
+       (lp (+ cp 1) (+ n 1) (if ok bad (+ bad 1))
+           (if (and (not ok) (not (member flags shown)) (< (length shown) 6)) (cons flags shown) shown)))))))""" % (cid, lo, hi)
 
 
 SWEEP_HEADER = r"""
 (define (digit-value* ch)
   (let ((n (char->integer ch)))
     (cond ((<= 48 n 57) (- n 48)) ((<= 97 n 102) (- n 87)) ((<= 65 n 70) (- n 55)) (else #f))))
+(define (rd1 reader t) (let ((r (%try (lambda () (list (reader (open-input-string t))))))) (if (null? (cdr r)) (car r) '%error)))
+;; (W) for a character, decided on the text itself: #\ followed by the character, by an R7RS name, or by x<hex>
+(define (char-text-ok? t cp)
+  (let ((len (string-length t)))
+    (and (>= len 3) (char=? (string-ref t 0) #\#) (char=? (string-ref t 1) #\\)
+         (or (and (= len 3) (= (char->integer (string-ref t 2)) cp))
+             (let ((name (substring t 2 len)))
+               (cond ((assoc name '(("alarm" . 7) ("backspace" . 8) ("delete" . 127) ("escape" . 27) ("newline" . 10)
+                                    ("null" . 0) ("return" . 13) ("space" . 32) ("tab" . 9)))
+                      => (lambda (p) (= (cdr p) cp)))
+                     ((and (char=? (string-ref name 0) #\x) (> (string-length name) 1))
+                      (let hx ((i 1) (v 0))
+                        (if (= i (string-length name)) (= v cp)
+                            (let ((d (digit-value* (string-ref name i))))
+                              (and d (hx (+ i 1) (+ (* v 16) d)))))))
+                     (else #f)))))))
 """
 
 
@@ -1093,31 +1164,23 @@ def run_char_sweep(rep, b, tier, env, counters):
         lines = [l for l in r.text.split("\n") if l.strip()]
         rep.case(("char-sweep", lo))
         seen = set()
+        FLAGS = [("W", "char", "native"), ("R", "char", "native"), ("X", "char", "lib-reads-native-text"),
+                 ("W", "char", "lib"), ("R", "char", "lib"), ("X", "char", "native-reads-lib-text"),
+                 ("R", "string", "native"), ("X", "string", "lib-reads-native-text"), ("R", "string", "lib"),
+                 ("X", "string", "native-reads-lib-text"), ("R", "symbol", "native"), ("X", "symbol", "lib-reads-native-text"),
+                 ("R", "symbol", "lib"), ("X", "symbol", "native-reads-lib-text")]
         for l in lines:
             if not l.startswith("(fail"):
                 continue
             o = parse_all(l)[0]
-            cp, tc, wok, y, y2, tsc, ys, ys2, tsyc, ysy, ysy2 = o[1:]
-            w = {"cp": hex(cp), "char_text": text_of(tc), "string_text": text_of(tsc), "symbol_text": text_of(tsyc), "line": l[:600]}
-            s = [97, cp, 98]
-            sigs = []
-            if wok is not True:
-                sigs.append({"check": "W", "kind": "char", "class": cp_class(cp)})
-            if y != cp:
-                sigs.append({"check": "R", "kind": "char", "class": cp_class(cp), "writer_faithful": wok is True})
-            if y2 != y:
-                sigs.append({"check": "X", "kind": "char", "class": cp_class(cp), "what": "readers-differ"})
-            if ys != s:
-                sigs.append({"check": "R", "kind": "string", "class": cp_class(cp), "sweep": True})
-            if ys2 != ys:
-                sigs.append({"check": "X", "kind": "string", "class": cp_class(cp), "what": "readers-differ", "sweep": True})
-            if ysy != s:
-                sigs.append({"check": "R", "kind": "symbol", "class": cp_class(cp), "sweep": True})
-            if ysy2 != ysy:
-                sigs.append({"check": "X", "kind": "symbol", "class": cp_class(cp), "what": "readers-differ", "sweep": True})
-            if not sigs:
-                sigs.append({"check": "X", "kind": "char", "class": cp_class(cp), "what": "writer-text-differs"})
-            for sg in sigs:
+            cp, flags = o[1], o[2]
+            texts = [text_of(x) for x in o[3:9]]
+            w = {"cp": hex(cp), "native/lib text of the char": texts[0:2], "of the string a<c>b": texts[2:4],
+                 "of the symbol a<c>b": texts[4:6], "flags": flags}
+            for (chk, kind, pair), fl in zip(FLAGS, flags):
+                if fl is True:
+                    continue
+                sg = {"check": chk, "kind": kind, "class": cp_class(cp), "pair": pair, "sweep": True}
                 k = tuple(sorted(sg.items()))
                 if k not in seen:
                     seen.add(k)
@@ -1153,7 +1216,7 @@ def check(rep, tier, seed):
     n_leaf = 6000 if quick else 60000
     n_tree = 5000 if quick else 100000
     n_graph = 2500 if quick else 40000
-    n_text = 6000 if quick else 200000
+    n_text = 0 if quick else 100000          # random mutations of python-printed texts: thorough tier only
     for i in range(n_leaf):
         kind = ("str", "sym", "char", "big", "ratio", "cpx", "flo", "bv")[i % 8]
         m, e, klass = g.leaf((kind,))
@@ -1170,15 +1233,23 @@ def check(rep, tier, seed):
         cid = "g%d" % i
         cases.append({"id": cid, "fam": "rtg", "model": m, "class": klass, "labels": nl, "feats": feats,
                       "form": "(%%case* %s (flush-output-port) (rtg %s))" % (cid, e)})
+    k = 0
+    for origin, table in (("spelling", spellings(rng)), ("probe", probes(rng))):
+        for name, text in table:
+            for cname, ctx in CONTEXTS:
+                if origin == "probe" and cname in ("quoted", "dotted-tail") and rng.random() < 0.5:
+                    continue
+                t = ctx % text
+                cid = "x%d" % k
+                k += 1
+                cases.append({"id": cid, "fam": "x2", "text": t, "origin": origin, "name": name, "context": cname,
+                              "form": "(%%case* %s (flush-output-port) (x2 %s))" % (cid, " ".join(str(ord(c)) for c in t))})
     for i in range(n_text):
         m, e, cl = g.tree(rng.choice((0, 1, 2, 3)))
-        t = py_write(m, rng)
-        origin = "python-writer"
-        if rng.random() < 0.7:
-            t = mutate(t, rng)
-            origin = "mutated"
-        cid = "x%d" % i
-        cases.append({"id": cid, "fam": "x2", "model": m, "text": t, "origin": origin,
+        t = mutate(py_write(m, rng), rng)
+        cid = "x%d" % k
+        k += 1
+        cases.append({"id": cid, "fam": "x2", "text": t, "origin": "mutated", "name": feature_of(t), "context": "-",
                       "form": "(%%case* %s (flush-output-port) (x2 %s))" % (cid, " ".join(str(ord(c)) for c in t))})
     res, ps = C.run_batches(b, IMPORTS, HEADER, [(c["id"], c["form"]) for c in cases], batch=250, env_extra=env,
                             timeout=60, heap="32M/256M")
